@@ -1702,3 +1702,57 @@ Proof.
     destruct (isr v); cbn [map]; now rewrite IH.
 Qed.
 End Post3.
+
+(* ------------------------------------------------------------------ *)
+(** ** inversion of HeaderSpec.decode *)
+Ltac dsc H := let H' := fresh in pose proof H as H'; cbv beta iota delta [decode] in H'; discriminate H'.
+
+Lemma decode_inv : forall f d, decode f = Some d ->
+  exists ver r nr r1 dims r2 gatts r3 vars r4,
+    f = 67 :: 68 :: 70 :: ver :: r /\ (ver = 1 \/ ver = 2 \/ ver = 5) /\
+    p_nn ver r = Some (nr, r1) /\
+    p_list ver 10 (p_dim ver) r1 = Some (dims, r2) /\
+    p_list ver 12 (p_att ver) r2 = Some (gatts, r3) /\
+    p_list ver 11 (p_var ver) r3 = Some (vars, r4) /\
+    d = mkdec (mkhdr ver nr (map dd_dim dims) (map da_att gatts) (map dv_var vars)) dims gatts vars
+              (Zlen f - Zlen r4).
+Proof.
+  intros f d H.
+  destruct f as [|b0 f]; [dsc H|].
+  destruct b0 as [|p|p]; try dsc H.
+  do 6 (destruct p as [p|p|]; try dsc H).
+  destruct f as [|b1 f]; [dsc H|].
+  destruct b1 as [|p|p]; try dsc H.
+  do 6 (destruct p as [p|p|]; try dsc H).
+  destruct f as [|b2 f]; [dsc H|].
+  destruct b2 as [|p|p]; try dsc H.
+  do 6 (destruct p as [p|p|]; try dsc H).
+  destruct f as [|ver r]; [dsc H|].
+  change (decode (67 :: 68 :: 70 :: ver :: r)) with
+    (if negb ((ver =? 1) || (ver =? 2) || (ver =? 5)) then None else
+      match p_nn ver r with
+      | Some (numrecs, r1) =>
+          match p_list ver 10 (p_dim ver) r1 with
+          | Some (dims, r2) =>
+              match p_list ver 12 (p_att ver) r2 with
+              | Some (gatts, r3) =>
+                  match p_list ver 11 (p_var ver) r3 with
+                  | Some (vars, r4) =>
+                      Some (mkdec (mkhdr ver numrecs (map dd_dim dims) (map da_att gatts) (map dv_var vars))
+                                  dims gatts vars (Zlen (67 :: 68 :: 70 :: ver :: r) - Zlen r4))
+                  | None => None
+                  end
+              | None => None
+              end
+          | None => None
+          end
+      | None => None
+      end) in H.
+  destruct (negb ((ver =? 1) || (ver =? 2) || (ver =? 5))) eqn:Ev; [discriminate|].
+  destruct (p_nn ver r) as [[nr r1]|] eqn:E1; [|discriminate].
+  destruct (p_list ver 10 (p_dim ver) r1) as [[dims r2]|] eqn:E2; [|discriminate].
+  destruct (p_list ver 12 (p_att ver) r2) as [[gatts r3]|] eqn:E3; [|discriminate].
+  destruct (p_list ver 11 (p_var ver) r3) as [[vars r4]|] eqn:E4; [|discriminate].
+  inversion H; subst d. exists ver, r, nr, r1, dims, r2, gatts, r3, vars, r4.
+  repeat split; try assumption; try reflexivity. lia.
+Qed.
